@@ -9,6 +9,12 @@ TECH = "deterministic simulation with fault injection: seeded generation of hist
 
 CLAIMED = {
     # id: (engine, design_ref, level text, level note)
+    "C03": ("emusim", "6.2",
+            "Generated RV64IMA programs (all instruction classes, boundary immediates/shifts, overlapping accesses of different widths, image-straddling and untouched memory, loops, bad jumps) are loaded by the real pipeline and stepped through the real emulator over Overlay(Bytes, Sparse) next to an independent RISC-V interpreter; a simulated provider supplies unknown state, a simulated operator edits registers, memory and pc between steps; after every step: failure iff not at an instruction start, exact step report, registers / known memory / ip equal to the reference, no panic.",
+            "Trusted: rvref interpreter. Known open findings (narrow register fill, accesses wrapping around 2^64) are listed in known_findings.json; after a narrow fill the reference is resynchronised to the emulator's assumption."),
+    "C04": ("emusim", "6.2",
+            "Same simulated machine: every provider request is an event checked against a known-set model (pre-known, program image, written by program or operator, supplied earlier): requested state was never known and never requested before; supplied values are re-checked at every later reported read.",
+            "Trusted: known-set model in the harness; provider answers truthfully at the requested width."),
     "C05": ("movesim", "6.3",
             "Seeded codes (synthetic ISA and real RV64IMA words) and move histories; every block whose order changed is emulated through the real emulator on a fresh unmoved code and on the moved code from identical pseudo-random machine states (simulated lazy memory provider); final registers, memory and instruction pointer must agree; unmoved instructions single-stepped after block moves.",
             "Trusted: harness provider and state rendering; emulator is the real one on both sides (relational oracle)."),
